@@ -61,6 +61,7 @@ def main():
     import vf.components as comp
     RecPL = comp.RecProcessLine
     cmp.MyProcessLine = RecPL
+    if spec.get("finish_during_replacement"): RecPL.slow_replacement_s, RecPL.n_initial = .4, spec["n"]
     install_perturbation(spec, stats)
 
     main_ident = threading.get_ident()
@@ -123,6 +124,11 @@ def main():
             for uid in range(spec["n_items"]):
                 if spec["loader_jitter_ms"] and rngc.random() < .5: time.sleep(rngc.random() * spec["loader_jitter_ms"] / 1000.0)
                 if spec.get("tail_delay_ms") and uid >= spec["n_items"] - 2: time.sleep(rngc.random() * spec["tail_delay_ms"] / 1000.0)   # late last items
+                if spec.get("finish_during_replacement") and uid == spec["n_items"] - 1:
+                    # the last item arrives while a retired worker is being replaced (bounded wait for that moment)
+                    t_end = time.time() + 3
+                    while time.time() < t_end and not any(e[0] == "start" and e[1] >= spec["n"] for e in list(comp.LINEAGE_LOG)): time.sleep(.005)
+                    time.sleep(.05)
                 res["events"].append(("loaded", uid))
                 yield (uid, "p" * (uid % 7))
         if spec["via"] == "coba":
